@@ -2,13 +2,20 @@ package main
 
 import (
 	"bytes"
+	"context"
 	"fmt"
+	"io"
 	"os"
 	"os/exec"
 	"path/filepath"
 
 	"github.com/ipfs/go-cid"
 	carv2 "github.com/ipld/go-car/v2"
+	"github.com/ipld/go-ipld-prime/datamodel"
+	"github.com/ipld/go-ipld-prime/linking"
+	cidlink "github.com/ipld/go-ipld-prime/linking/cid"
+	selectorparse "github.com/ipld/go-ipld-prime/traversal/selector/parse"
+	"github.com/multiformats/go-multicodec"
 )
 
 // C05 producer.  Four streams, all derived from c.R:
@@ -176,6 +183,14 @@ func init() {
 			}
 			if len(roots) == 0 {
 				c.Count("roots:none")
+				// the known finding (car verify refuses archives without roots) must not hide anything: the twin
+				// session -- same front-end, options and history, one root among the offered blocks -- is checked
+				// with every clause, the verifier included
+				if len(h) > 0 && len(h[0]) > 0 {
+					twinRoots := []cid.Cid{h[0][0].Cid}
+					c.Emit("final", c05FinalInput(kind, o, twinRoots, h, nil), c05RunFinalImpl(c, kind, o, twinRoots, h), c05DistinctBlks(h) >= 2)
+					c.Count("roots:none-twin-with-root")
+				}
 			}
 			if ol := obs.(VL); len(finished) < 60*c.Scale && r.Chance(40) && len(ol[3].(VB)) > 0 && len(ol[3].(VB)) < 1500 && string(ol[2].(VL)[0].(VT)) == "nil" {
 				finished = append(finished, []byte(ol[3].(VB)))
@@ -396,6 +411,119 @@ func init() {
 			hok, hdrs := c05FileTables(file)
 			c.Emit("finalfile", VL{o.val(), VB(file), hok, hdrs, VN(1)}, c05RunFinalFileImpl(c, file), true)
 			c.Count("frontend:car-get-dag")
+		}
+
+		// ---- 3c. the other producers of a finished archive in the library: WrapV1 / WrapV1File, the traversal
+		// writers (TraverseToFile, NewSelectiveWriter, TraverseV1) and `car index`.  Their index holds what the
+		// producer indexes (WrapV1 / car index: non-identity sections, or all with StoreIdentityCIDs; traversal
+		// writers: every section) and none of them sets the fully-indexed bit: expectation 2 = wf_final with the
+		// one-directional flag clause.  Inspect(true) / car verify verdicts as for every other file.
+		nOther := 14 * c.Scale
+		for i := 0; i < nOther; i++ {
+			r := c.R.Fork()
+			o := defaultWOpts
+			if r.Chance(40) {
+				o.codec = 0x0400
+			}
+			var file []byte
+			switch r.Intn(7) {
+			case 0, 1, 2: // WrapV1 / WrapV1File / car index over a CARv1 with identity blocks and duplicates
+				blks := genBlocks(r, 1+r.Intn(7), genOpts{identity: true, maxData: 300})
+				roots := genRoots(r, blks, false)
+				payload := refPayload(roots, blks)
+				o.storeID = r.Chance(40)
+				dir, err := os.MkdirTemp(c.Work, "wr")
+				if err != nil {
+					panic(err)
+				}
+				src, dst := filepath.Join(dir, "in.car"), filepath.Join(dir, "out.car")
+				os.WriteFile(src, payload, 0o644)
+				switch r.Intn(3) {
+				case 0:
+					var buf bytes.Buffer
+					if err := carv2.WrapV1(bytes.NewReader(payload), &buf, o.v2()...); err != nil {
+						panic(err)
+					}
+					file = buf.Bytes()
+					c.Count("frontend:WrapV1")
+				case 1:
+					o = defaultWOpts // WrapV1File takes no options
+					if err := carv2.WrapV1File(src, dst); err != nil {
+						panic(err)
+					}
+					file, _ = os.ReadFile(dst)
+					c.Count("frontend:WrapV1File")
+				default:
+					o.storeID = false
+					codec := "car-multihash-index-sorted"
+					if o.codec == 0x0400 {
+						codec = "car-index-sorted"
+					}
+					if msg, err := exec.Command(c.CarBin, "index", "--codec", codec, src, dst).CombinedOutput(); err != nil {
+						panic(fmt.Sprintf("car index failed: %v %s", err, msg))
+					}
+					file, _ = os.ReadFile(dst)
+					c.Count("frontend:car-index")
+				}
+				os.RemoveAll(dir)
+			default: // traversal writers over a generated DAG
+				g := genDag(r, 1+r.Intn(2), 1, false)
+				store := map[string][]byte{}
+				for _, n := range g.nodes {
+					store[n.c.KeyString()] = n.data
+				}
+				ls := cidlink.DefaultLinkSystem()
+				ls.TrustedStorage = true
+				ls.StorageReadOpener = func(_ linking.LinkContext, l datamodel.Link) (io.Reader, error) {
+					d, ok := store[l.(cidlink.Link).Cid.KeyString()]
+					if !ok {
+						return nil, fmt.Errorf("block not found")
+					}
+					return bytes.NewReader(d), nil
+				}
+				root := g.tops[0].c
+				sel := selectorparse.CommonSelector_ExploreAllRecursively
+				o.dpad = uint64(pick(r, []int{0, 0, 1, 7, 1413}))
+				o.ipad = uint64(pick(r, []int{0, 0, 1, 512}))
+				o.storeID = true // the traversal writers index every section they write
+				topts := []carv2.Option{carv2.UseDataPadding(o.dpad), carv2.UseIndexPadding(o.ipad), carv2.UseIndexCodec(multicodec.Code(o.codec))}
+				ctx := context.Background()
+				switch r.Intn(3) {
+				case 0:
+					dir, err := os.MkdirTemp(c.Work, "tv")
+					if err != nil {
+						panic(err)
+					}
+					dst := filepath.Join(dir, "out.car")
+					if err := carv2.TraverseToFile(ctx, &ls, root, sel, dst, topts...); err != nil {
+						panic(err)
+					}
+					file, _ = os.ReadFile(dst)
+					os.RemoveAll(dir)
+					c.Count("frontend:TraverseToFile")
+				case 1:
+					w, err := carv2.NewSelectiveWriter(ctx, &ls, root, sel, topts...)
+					if err != nil {
+						panic(err)
+					}
+					var buf bytes.Buffer
+					if _, err := w.WriteTo(&buf); err != nil {
+						panic(err)
+					}
+					file = buf.Bytes()
+					c.Count("frontend:NewSelectiveWriter")
+				default:
+					var buf bytes.Buffer
+					if _, err := carv2.TraverseV1(ctx, &ls, root, sel, &buf, topts...); err != nil {
+						panic(err)
+					}
+					file = buf.Bytes()
+					o.v1 = true
+					c.Count("frontend:TraverseV1")
+				}
+			}
+			hok, hdrs := c05FileTables(file)
+			c.Emit("finalfile", VL{o.val(), VB(file), hok, hdrs, VN(2)}, c05RunFinalFileImpl(c, file), true)
 		}
 
 		// ---- 4. damaged finished files: the two checker models against the real checkers
